@@ -54,9 +54,21 @@ End Streams.
 
 Lemma f_exp_fixed : forall r, (forall t, f_exp Fixed r <> FPan t) /\ f_exp Fixed r <> FNoFuel.
 Proof.
-  intros [n|e|t|]; cbn [f_exp]; try (split; [intros t'|]; discriminate).
+  intros [[n c]|e|t|]; cbn [f_exp]; try (split; [intros t'|]; discriminate).
   eapply fld_rsat. apply exception_print_fixed_rsat.
 Qed.
+Lemma context_print_fixed_rsat : forall k, rsat (fun _ => True) (context_print Fixed k).
+Proof. intros k; destruct k; cbn [context_print]; apply rsat_ok; exact I. Qed.
+Lemma f_exc_fixed : forall e file si r, (forall t, f_exc Fixed e file si r <> FPan t) /\ f_exc Fixed e file si r <> FNoFuel.
+Proof.
+  intros e file si [[n c]|er|t|]; cbn [f_exc]; try (split; [intros t'|]; discriminate).
+  eapply fld_rsat. unfold exception_print_ctx.
+  eapply rsat_bind; [apply exception_print_fixed_rsat|]. intros _ _.
+  destruct (exc_kind _ _ _ _); [apply context_print_fixed_rsat | apply rsat_ok; exact I].
+Qed.
+Lemma f_ex_ok : forall e file si r, rsat (fun _ => True) r ->
+  (forall t, f_ex e file si r <> FPan t) /\ f_ex e file si r <> FNoFuel.
+Proof. intros e file si r H. unfold f_ex. eapply fld_rsat. exact H. Qed.
 
 (* every field of a fixed-code run is neither a panic nor out of fuel; every ledger entry is
    within ALLOC_C * |file| *)
@@ -81,8 +93,9 @@ Proof.
       * eapply fld_rsat. apply (s_ti_sat p e file ds Hwf Hlen).
       * eapply fld_rsat. apply (s_tn_sat p e file ds Hwf Hlen).
       * eapply fld_rsat. apply (s_hd_sat p e file ds Hwf Hlen).
-      * eapply fld_rsat. apply (s_ex_sat e file ds Hwf).
+      * apply f_ex_ok. apply (s_ex_sat e file ds Hwf).
       * apply f_exp_fixed.
+      * apply f_exc_fixed.
     + repeat (apply Forall_app; split).
       * apply (s_tl_sat p e file ds Hwf Hlen).
       * apply (s_ml_sat p e file ds Hwf Hlen).
@@ -142,12 +155,16 @@ Qed.
 Lemma wit_d_allocates : wf_bytes wit_d /\ blen wit_d = 60 /\
   In (4294967295 * MSZ_HANDLE) (o_ledger (run_case Unfixed Debug wit_d)).
 Proof. split; [apply wf_bytes_dec; vm_compute; reflexivity|]. split; [reflexivity|]. vm_compute. tauto. Qed.
+(* F-C01e: a PPC context under an exception: print reaches unimplemented!() *)
+Lemma wit_e_panics : wf_bytes wit_e_ppc /\ In (13, FPan PANIC_CTX_UNIMPL) (o_fields (run_case Unfixed Debug wit_e_ppc)).
+Proof. split; [apply wf_bytes_dec; vm_compute; reflexivity|]. vm_compute. tauto. Qed.
 (* after the fixes the same files are harmless *)
 Lemma wit_fixed_ok :
   In (10, FOk [1; 0]) (o_fields (run_case Fixed Debug wit_a)) /\
   In (10, FOk [1; 9]) (o_fields (run_case Fixed Debug wit_b)) /\
   In (12, FOk []) (o_fields (run_case Fixed Debug wit_c)) /\
-  In (10, FErr EStreamReadFailure) (o_fields (run_case Fixed Debug wit_d)) /\ o_ledger (run_case Fixed Debug wit_d) = [].
+  In (10, FErr EStreamReadFailure) (o_fields (run_case Fixed Debug wit_d)) /\ o_ledger (run_case Fixed Debug wit_d) = [] /\
+  In (11, FOk [0; 3]) (o_fields (run_case Fixed Debug wit_e_ppc)) /\ In (13, FOk []) (o_fields (run_case Fixed Debug wit_e_ppc)).
 Proof. vm_compute. tauto. Qed.
 
 (* ------------------------------------------------------------------ per-reader corollaries *)
